@@ -169,6 +169,7 @@ struct Options {
   int workers = 16;
   double budget_s = 0;       // stop starting new runs after this many seconds (0 = none)
   double run_timeout_s = 120;
+  int child_alarm_s = 0;   // 0: 15 s for the single-task engines, 60 s for schedsim
   int cpu_limit_s = 60;
   std::set<std::string> known;
   bool verbose = false;
@@ -207,6 +208,9 @@ static pid_t spawn_child(const Engine *eng, const std::vector<std::string> &plan
     setrlimit(RLIMIT_CPU, &rl);
     rl.rlim_cur = rl.rlim_max = 0;
     setrlimit(RLIMIT_CORE, &rl);
+    // a run that blocks without burning CPU (a mutex that is never released) is ended by a wall-clock alarm
+    // in the child itself, long before the supervisor's own timeout: SIGALRM is classified as a hang
+    alarm(g_opt.child_alarm_s > 0 ? g_opt.child_alarm_s : (!strcmp(eng->name, "sched") ? 60 : 15));
     static Child c;
     g_child = &c;
     c.out_fd = p[1];
@@ -237,7 +241,8 @@ static void reap(Slot &s, RunResult &r, bool timed_out) {
   else r.end = "ok";
   if (r.end != "ok" && r.vclass.empty()) {
     // abnormal end is itself a violation class, attributed to the seed
-    r.vclass = r.end == "sanitizer" ? "sanitizer" : r.end == "timeout" ? "hang" : "crash";
+    r.vclass = r.end == "sanitizer" ? "sanitizer" : (r.end == "timeout" || r.end == "signal:14" || r.end == "signal:24") ? "hang" : "crash";
+    if (r.vclass == "hang") r.end = "timeout";
     std::string key = r.end;
     if (r.end == "sanitizer") {
       // key: the sanitizer's error kind (e.g. heap-use-after-free), not addresses
@@ -434,6 +439,7 @@ static int cmd_batch(const Engine *eng) {
     started++;
   };
   bool stop_new = false;
+  unsigned total_failing = 0;
   while (true) {
     if (!stop_new && g_opt.budget_s > 0 && now_s() - t0 > g_opt.budget_s) stop_new = true;
     for (auto &s : slots)
@@ -476,6 +482,8 @@ static int cmd_batch(const Engine *eng) {
       }
       if (r.violated()) {
         std::string sig = r.sig();
+        // fail fast: hundreds of failing runs add nothing, and hanging runs are expensive
+        if (++total_failing >= (r.vclass == "hang" ? 48u : 400u)) stop_new = true;
         failure_counts[sig]++;
         if (!failures.count(sig)) failures[sig] = Failure{seeds[job], job, plans[job], r};
       } else sum.ok++;
@@ -748,6 +756,7 @@ int main(int argc, char **argv) {
     else if (a == "--max-report") g_opt.max_report = atoi(val().c_str());
     else if (a == "--shrink-budget") g_opt.shrink_budget_s = atof(val().c_str());
     else if (a == "--run-timeout") g_opt.run_timeout_s = atof(val().c_str());
+    else if (a == "--child-alarm") g_opt.child_alarm_s = atoi(val().c_str());
     else if (a[0] != '-') file = a;
     else { usage(); return 3; }
   }
